@@ -48,21 +48,58 @@ theorem rdBytes_put (x r : Bytes) : rdBytes x.length (x ++ r) = .ok (x, r) := by
 theorem rdBytes_put' {n : Nat} (x r : Bytes) (h : x.length = n) : rdBytes n (x ++ r) = .ok (x, r) := by
   subst h; exact rdBytes_put x r
 
-theorem vNonNeg_put (f : Fmt) (n : Nat) (r : Bytes) (h : n < nnLim f) :
-    vNonNeg f.version (putNonNeg f.version n ++ r) = .ok (n, r) := by
-  cases f <;> simp only [nnLim] at h
+theorem rdU64raw_put (n : Nat) (r : Bytes) (h : n < 18446744073709551616) : rdU64raw (be64 n ++ r) = .ok (n, r) := by
+  unfold rdU64raw
+  rw [ztake_append_left' (n := 8) (be64 n) r rfl, beNat_be64 n h, drop_append_left' (n := 8) (be64 n) r rfl]
+
+theorem vNonNeg_put (c : VCfg) (f : Fmt) (n : Nat) (r : Bytes) (h : n < nnLim f) :
+    vNonNeg c f.version (putNonNeg f.version n ++ r) = .ok (n, r) := by
+  obtain ⟨sl, ss, st, d64⟩ := c
+  cases ss <;> cases f <;> simp only [nnLim] at h
   · show rdU32 (be32 n ++ r) = _; exact rdU32_put n r (by omega)
   · show rdU32 (be32 n ++ r) = _; exact rdU32_put n r (by omega)
   · show rdU64 (be64 n ++ r) = _; exact rdU64_put n r (by omega)
+  · show (rdU32 >>= fun v => if v > 2147483647 then VP.fail .enotnc else pure v) (be32 n ++ r) = _
+    rw [bind_ok (rdU32_put n r (by omega))]
+    have : ¬ n > 2147483647 := by omega
+    simp only [this, if_false, pure_apply]
+  · show (rdU32 >>= fun v => if v > 2147483647 then VP.fail .enotnc else pure v) (be32 n ++ r) = _
+    rw [bind_ok (rdU32_put n r (by omega))]
+    have : ¬ n > 2147483647 := by omega
+    simp only [this, if_false, pure_apply]
+  · show (rdU64raw >>= fun v => if v ≥ 9223372036854775808 then VP.fail .enotnc else pure v) (be64 n ++ r) = _
+    rw [bind_ok (rdU64raw_put n r (by omega))]
+    have : ¬ n ≥ 9223372036854775808 := by omega
+    simp only [this, if_false, pure_apply]
+
+theorem vNumrecs_put (c : VCfg) (f : Fmt) (n : Nat) (r : Bytes) (h : n < nnLim f) :
+    vNumrecs c f.version (putNonNeg f.version n ++ r) = .ok (n, r) := by
+  obtain ⟨sl, ss, st, d64⟩ := c
+  cases ss <;> cases f <;> simp only [nnLim] at h
+  · show rdU32 (be32 n ++ r) = _; exact rdU32_put n r (by omega)
+  · show rdU32 (be32 n ++ r) = _; exact rdU32_put n r (by omega)
+  · show rdU64 (be64 n ++ r) = _; exact rdU64_put n r (by omega)
+  · show (rdU32 >>= fun v => if v > 2147483647 ∧ v ≠ 4294967295 then VP.fail .enotnc else pure v) (be32 n ++ r) = _
+    rw [bind_ok (rdU32_put n r (by omega))]
+    have : ¬ (n > 2147483647 ∧ n ≠ 4294967295) := by omega
+    simp only [this, if_false, pure_apply]
+  · show (rdU32 >>= fun v => if v > 2147483647 ∧ v ≠ 4294967295 then VP.fail .enotnc else pure v) (be32 n ++ r) = _
+    rw [bind_ok (rdU32_put n r (by omega))]
+    have : ¬ (n > 2147483647 ∧ n ≠ 4294967295) := by omega
+    simp only [this, if_false, pure_apply]
+  · show (rdU64raw >>= fun v => if v ≥ 9223372036854775808 ∧ v ≠ 18446744073709551615 then VP.fail .enotnc else pure v) (be64 n ++ r) = _
+    rw [bind_ok (rdU64raw_put n r (by omega))]
+    have : ¬ (n ≥ 9223372036854775808 ∧ n ≠ 18446744073709551615) := by omega
+    simp only [this, if_false, pure_apply]
 
 theorem allZero_zeros (n : Nat) : allZero (zeros n) = true := by
   simp [allZero, zeros]
 
-theorem vName_put (f : Fmt) (nm r : Bytes) (h0 : NoNul nm) (hl : nm.length < nnLim f) :
-    vName f.version (putName f.version nm ++ r) = .ok ((nm, true), r) := by
+theorem vName_put (c : VCfg) (f : Fmt) (nm r : Bytes) (h0 : NoNul nm) (hl : nm.length < nnLim f) :
+    vName c f.version (putName f.version nm ++ r) = .ok ((nm, true), r) := by
   unfold vName putName
   simp only [cstr_eq_self h0, List.append_assoc]
-  rw [bind_ok (vNonNeg_put f _ _ hl), bind_ok (rdBytes_put nm _)]
+  rw [bind_ok (vNonNeg_put c f _ _ hl), bind_ok (rdBytes_put nm _)]
   have hp : rndup nm.length 4 - nm.length = (if nm.length % 4 ≠ 0 then 4 - nm.length % 4 else 0) := by
     unfold rndup; split <;> omega
   by_cases hz : nm.length % 4 = 0
@@ -78,18 +115,18 @@ theorem vName_put (f : Fmt) (nm r : Bytes) (h0 : NoNul nm) (hl : nm.length < nnL
 @[simp] theorem VFlags.and_ok_ok : VFlags.ok.and VFlags.ok = VFlags.ok := rfl
 @[simp] theorem VFlags.ofPad_true : VFlags.ofPad true = VFlags.ok := rfl
 
-theorem vDim_put (f : Fmt) (d : Dim) (r : Bytes) (hu : Bool) (h : DimWF f d) (hok : ¬ (hu = true ∧ d.size = 0)) :
-    vDim f.version hu (putDim f.version d ++ r) = .ok ((d, VFlags.ok), r) := by
+theorem vDim_put (c : VCfg) (f : Fmt) (d : Dim) (r : Bytes) (hu : Bool) (h : DimWF f d) (hok : ¬ (hu = true ∧ d.size = 0)) :
+    vDim c f.version hu (putDim f.version d ++ r) = .ok ((d, VFlags.ok), r) := by
   unfold vDim putDim
-  rw [List.append_assoc, bind_ok (vName_put f d.name _ h.nul h.nameLen)]
+  rw [List.append_assoc, bind_ok (vName_put c f d.name _ h.nul h.nameLen)]
   simp only []
-  rw [bind_ok (vNonNeg_put f d.size r h.size)]
+  rw [bind_ok (vNonNeg_put c f d.size r h.size)]
   simp only [hok, if_false, pure_apply, VFlags.ofPad_true]
 
 /-- the dimension loop on the writer's output: at most one record dimension in `hu :: ds` -/
-theorem vDims_put (f : Fmt) : ∀ (ds : List Dim) (r : Bytes) (hu : Bool), (∀ d ∈ ds, DimWF f d) →
+theorem vDims_put (c : VCfg) (f : Fmt) : ∀ (ds : List Dim) (r : Bytes) (hu : Bool), (∀ d ∈ ds, DimWF f d) →
     (ds.filter (fun x => x.size == 0)).length + (if hu then 1 else 0) ≤ 1 →
-    vDims f.version ds.length hu (ds.flatMap (putDim f.version) ++ r) = .ok ((ds, VFlags.ok), r) := by
+    vDims c f.version ds.length hu (ds.flatMap (putDim f.version) ++ r) = .ok ((ds, VFlags.ok), r) := by
   intro ds
   induction ds with
   | nil => intro r hu _ _; rfl
@@ -99,7 +136,7 @@ theorem vDims_put (f : Fmt) : ∀ (ds : List Dim) (r : Bytes) (hu : Bool), (∀ 
     have hok : ¬ (hu = true ∧ d.size = 0) := by
       intro ⟨h2, h3⟩
       simp [h2, h3] at h1
-    rw [bind_ok (vDim_put f d _ hu (hw d (by simp)) hok)]
+    rw [bind_ok (vDim_put c f d _ hu (hw d (by simp)) hok)]
     simp only []
     have h1' : (t.filter (fun x => x.size == 0)).length + (if (hu || d.size == 0) = true then 1 else 0) ≤ 1 := by
       by_cases hd : d.size = 0
@@ -121,11 +158,11 @@ theorem vTag_put (t : Nat) (r : Bytes) (h : t = 0 ∨ t = 10 ∨ t = 11 ∨ t = 
   simp only [h, if_true, pure_apply]
 
 /-- a list written by hdr_put_NC_*array is read back by the validator's array reader -/
-theorem vArray_put {α : Type} (f : Fmt) (tag maxN : Nat) (errMax : VErr) (htag : tag = 10 ∨ tag = 11 ∨ tag = 12)
+theorem vArray_put (c : VCfg) {α : Type} (f : Fmt) (tag maxN : Nat) (errMax : VErr) (htag : tag = 10 ∨ tag = 11 ∨ tag = 12)
     (items : Nat → VP (List α × VFlags)) (enc : α → Bytes) (xs : List α) (r : Bytes)
     (hn : xs.length < nnLim f) (hm : xs.length ≤ maxN)
     (hi : xs.length ≠ 0 → items xs.length (xs.flatMap enc ++ r) = .ok ((xs, VFlags.ok), r)) :
-    vArray f.version tag maxN errMax items
+    vArray c f.version tag maxN errMax items
       ((if xs.length = 0 then be32 0 ++ putNonNeg f.version 0
         else be32 tag ++ putNonNeg f.version xs.length ++ xs.flatMap enc) ++ r) = .ok ((xs, VFlags.ok), r) := by
   unfold vArray
@@ -134,11 +171,11 @@ theorem vArray_put {α : Type} (f : Fmt) (tag maxN : Nat) (errMax : VErr) (htag 
     subst this
     simp only [List.length_nil, if_true, List.append_assoc]
     rw [bind_ok (vTag_put 0 _ (by simp))]
-    rw [bind_ok (vNonNeg_put f 0 r (by cases f <;> simp [nnLim]))]
+    rw [bind_ok (vNonNeg_put c f 0 r (by cases f <;> simp [nnLim]))]
     simp [pure_apply, VFlags.ok]
   · simp only [h0, if_false, List.append_assoc]
     rw [bind_ok (vTag_put tag _ (by omega))]
-    rw [bind_ok (vNonNeg_put f _ _ hn)]
+    rw [bind_ok (vNonNeg_put c f _ _ hn)]
     have h1 : ¬ xs.length > maxN := by omega
     simp only [h1, h0, if_false, ne_eq, not_true_eq_false]
     exact hi h0
@@ -169,13 +206,13 @@ theorem vAttr_tail (a : Att) (ok1 : Bool) (k : Nat) (r : Bytes) :
     subst this
     simp [pure_apply, zeros]
 
-theorem vAttr_put (f : Fmt) (a : Att) (r : Bytes) (h : AttWF f a) :
-    vAttr f.version (putAttr f.version a ++ r) = .ok ((a, VFlags.ok), r) := by
+theorem vAttr_put (c : VCfg) (f : Fmt) (a : Att) (r : Bytes) (h : AttWF f a) :
+    vAttr c f.version (putAttr f.version a ++ r) = .ok ((a, VFlags.ok), r) := by
   unfold vAttr putAttr
   simp only [List.append_assoc]
-  rw [bind_ok (vName_put f a.name _ h.nul h.nameLen)]
+  rw [bind_ok (vName_put c f a.name _ h.nul h.nameLen)]
   simp only []
-  rw [bind_ok (vType_put f a.xtype _ h.typeOk), bind_ok (vNonNeg_put f a.nelems _ h.nelems)]
+  rw [bind_ok (vType_put f a.xtype _ h.typeOk), bind_ok (vNonNeg_put c f a.nelems _ h.nelems)]
   rw [putAttrV_eq a h.value, List.append_assoc]
   rw [bind_ok (rdBytes_put' a.xvalue _ h.value)]
   have hp : (if a.nelems > 0 then xlenAttrV a.xtype a.nelems else 0) - a.nelems * a.xtype.size =
@@ -200,12 +237,12 @@ theorem vN_put {α : Type} (item : VP (α × VFlags)) (enc : α → Bytes) (WF :
     rw [bind_ok (ih r (fun y hy => hw y (by simp [hy])))]
     simp [pure_apply]
 
-theorem vAttrArray_put (f : Fmt) (as : List Att) (r : Bytes) (hn : as.length < nnLim f) (hm : as.length ≤ NC_MAX_ATTRS)
+theorem vAttrArray_put (c : VCfg) (f : Fmt) (as : List Att) (r : Bytes) (hn : as.length < nnLim f) (hm : as.length ≤ NC_MAX_ATTRS)
     (hw : ∀ a ∈ as, AttWF f a) :
-    vAttrArray f.version (putAttrArray f.version as ++ r) = .ok ((as, VFlags.ok), r) := by
+    vAttrArray c f.version (putAttrArray f.version as ++ r) = .ok ((as, VFlags.ok), r) := by
   unfold vAttrArray putAttrArray
-  exact vArray_put f NC_ATTRIBUTE NC_MAX_ATTRS .emaxatts (by simp [NC_ATTRIBUTE]) _ (putAttr f.version) as r hn hm
-    (fun _ => vN_put (vAttr f.version) (putAttr f.version) (AttWF f) (vAttr_put f) as r hw)
+  exact vArray_put c f NC_ATTRIBUTE NC_MAX_ATTRS .emaxatts (by simp [NC_ATTRIBUTE]) _ (putAttr f.version) as r hn hm
+    (fun _ => vN_put (vAttr c f.version) (putAttr f.version) (AttWF f) (vAttr_put c f) as r hw)
 
 theorem dimidC_small {id : Nat} (h : id < 2147483648) : dimidC id = some id := by
   unfold dimidC
@@ -214,31 +251,70 @@ theorem dimidC_small {id : Nat} (h : id < 2147483648) : dimidC id = some id := b
   have : ¬ id ≥ 2147483648 := by omega
   simp [this]
 
-theorem vDimid_put (f : Fmt) (nd id : Nat) (r : Bytes) (h : id < nd) (hnd : nd ≤ 2147483647) :
-    vDimid f.version nd (putNonNeg f.version id ++ r) = .ok ((id, VFlags.ok), r) := by
-  unfold vDimid
-  rw [bind_ok (vNonNeg_put f id r (by cases f <;> simp [nnLim] <;> omega))]
-  rw [dimidC_small (by omega)]
-  have : ¬ id ≥ nd := by omega
-  simp only [this, if_false, pure_apply]
+theorem vDimid_put (c : VCfg) (f : Fmt) (nd id : Nat) (r : Bytes) (h : id < nd) (hnd : nd ≤ 2147483647) :
+    vDimid c f.version nd (putNonNeg f.version id ++ r) = .ok ((id, VFlags.ok), r) := by
+  have hge : ¬ id ≥ nd := by omega
+  obtain ⟨sl, ss, st, d64⟩ := c
+  cases d64 <;> cases f
+  · show (rdU32 >>= fun v => match dimidC v with
+        | some d => if d ≥ nd then VP.fail .ebaddim else pure (v, VFlags.ok)
+        | none => pure (v, VFlags.ok)) (be32 id ++ r) = _
+    rw [bind_ok (rdU32_put id r (by omega)), dimidC_small (by omega)]
+    simp only [hge, if_false, pure_apply]
+  · show (rdU32 >>= fun v => match dimidC v with
+        | some d => if d ≥ nd then VP.fail .ebaddim else pure (v, VFlags.ok)
+        | none => pure (v, VFlags.ok)) (be32 id ++ r) = _
+    rw [bind_ok (rdU32_put id r (by omega)), dimidC_small (by omega)]
+    simp only [hge, if_false, pure_apply]
+  · show (rdU64 >>= fun v => match dimidC v with
+        | some d => if d ≥ nd then VP.fail .ebaddim else pure (v, VFlags.ok)
+        | none => pure (v, VFlags.ok)) (be64 id ++ r) = _
+    rw [bind_ok (rdU64_put id r (by omega)), dimidC_small (by omega)]
+    simp only [hge, if_false, pure_apply]
+  · show (rdU32 >>= fun v => if v ≥ nd then VP.fail .ebaddim else pure (v, VFlags.ok)) (be32 id ++ r) = _
+    rw [bind_ok (rdU32_put id r (by omega))]
+    simp only [hge, if_false, pure_apply]
+  · show (rdU32 >>= fun v => if v ≥ nd then VP.fail .ebaddim else pure (v, VFlags.ok)) (be32 id ++ r) = _
+    rw [bind_ok (rdU32_put id r (by omega))]
+    simp only [hge, if_false, pure_apply]
+  · show (rdU64raw >>= fun v => if v ≥ nd then VP.fail .ebaddim else pure (v, VFlags.ok)) (be64 id ++ r) = _
+    rw [bind_ok (rdU64raw_put id r (by omega))]
+    simp only [hge, if_false, pure_apply]
 
-theorem vBegin_put (f : Fmt) (n : Nat) (r : Bytes) (h : n < offLim f) :
-    vBegin f.version (putBegin f.version n ++ r) = .ok (n, r) := by
-  cases f <;> simp only [offLim] at h
+theorem vBegin_put (c : VCfg) (f : Fmt) (n : Nat) (r : Bytes) (h : n < offLim f) :
+    vBegin c f.version (putBegin f.version n ++ r) = .ok (n, r) := by
+  obtain ⟨sl, ss, st, d64⟩ := c
+  cases ss <;> cases f <;> simp only [offLim] at h
   · show rdU32 (be32 n ++ r) = _; exact rdU32_put n r (by omega)
   · show rdU64 (be64 n ++ r) = _; exact rdU64_put n r (by omega)
   · show rdU64 (be64 n ++ r) = _; exact rdU64_put n r (by omega)
+  · show (rdU32 >>= fun v => if v > 2147483647 then VP.fail .enotnc else pure v) (be32 n ++ r) = _
+    rw [bind_ok (rdU32_put n r (by omega))]
+    have : ¬ n > 2147483647 := by omega
+    simp only [this, if_false, pure_apply]
+  · show (rdU64raw >>= fun v => if v ≥ 9223372036854775808 then VP.fail .enotnc else pure v) (be64 n ++ r) = _
+    rw [bind_ok (rdU64raw_put n r (by omega))]
+    have : ¬ n ≥ 9223372036854775808 := by omega
+    simp only [this, if_false, pure_apply]
+  · show (rdU64raw >>= fun v => if v ≥ 9223372036854775808 then VP.fail .enotnc else pure v) (be64 n ++ r) = _
+    rw [bind_ok (rdU64raw_put n r (by omega))]
+    have : ¬ n ≥ 9223372036854775808 := by omega
+    simp only [this, if_false, pure_apply]
 
 /-- bound of the vsize field as the validator reads it (hdr_get_NON_NEG): any 32-bit word, a 64-bit word
     without sign bit -/
 def vsizeLim (f : Fmt) : Nat := match f with | .cdf5 => 2 ^ 63 | _ => 2 ^ 32
 
-theorem vNonNeg_put_raw (f : Fmt) (n : Nat) (r : Bytes) (h : n < vsizeLim f) :
-    vNonNeg f.version (putNonNeg f.version n ++ r) = .ok (n, r) := by
-  cases f <;> simp only [vsizeLim] at h
+theorem vVsize_put (c : VCfg) (f : Fmt) (n : Nat) (r : Bytes) (h : n < vsizeLim f) :
+    vVsize c f.version (putNonNeg f.version n ++ r) = .ok (n, r) := by
+  obtain ⟨sl, ss, st, d64⟩ := c
+  cases ss <;> cases f <;> simp only [vsizeLim] at h
   · show rdU32 (be32 n ++ r) = _; exact rdU32_put n r (by omega)
   · show rdU32 (be32 n ++ r) = _; exact rdU32_put n r (by omega)
   · show rdU64 (be64 n ++ r) = _; exact rdU64_put n r (by omega)
+  · show rdU32 (be32 n ++ r) = _; exact rdU32_put n r (by omega)
+  · show rdU32 (be32 n ++ r) = _; exact rdU32_put n r (by omega)
+  · show rdU64raw (be64 n ++ r) = _; exact rdU64raw_put n r (by omega)
 
 /-- what the validator needs of a variable beyond `VarWF`: its own limits and the modelled domain -/
 structure VarV (f : Fmt) (nd : Nat) (v : Var) : Prop where
@@ -248,22 +324,22 @@ structure VarV (f : Fmt) (nd : Nat) (v : Var) : Prop where
   natts  : v.atts.length ≤ NC_MAX_ATTRS
   vsize  : v.vsize < vsizeLim f
 
-theorem vVar_put (f : Fmt) (nd : Nat) (hnd : nd ≤ 2147483647) (v : Var) (r : Bytes) (h : VarV f nd v) :
-    vVar f.version nd (putVar f.version v ++ r) = .ok ((v, VFlags.ok), r) := by
+theorem vVar_put (c : VCfg) (f : Fmt) (nd : Nat) (hnd : nd ≤ 2147483647) (v : Var) (r : Bytes) (h : VarV f nd v) :
+    vVar c f.version nd (putVar f.version v ++ r) = .ok ((v, VFlags.ok), r) := by
   unfold vVar putVar
   simp only [List.append_assoc]
-  rw [bind_ok (vName_put f v.name _ h.wf.nul h.wf.nameLen)]
+  rw [bind_ok (vName_put c f v.name _ h.wf.nul h.wf.nameLen)]
   simp only []
-  rw [bind_ok (vNonNeg_put f _ _ h.wf.ndims)]
+  rw [bind_ok (vNonNeg_put c f _ _ h.wf.ndims)]
   have h1 : ¬ v.dimids.length > NC_MAX_VAR_DIMS := by have := h.ndims; omega
   simp only [h1, if_false]
-  rw [bind_ok (vN_put (vDimid f.version nd) (putNonNeg f.version) (fun id => id < nd)
-        (fun x r hx => vDimid_put f nd x r hx hnd) v.dimids _ h.dimids)]
+  rw [bind_ok (vN_put (vDimid c f.version nd) (putNonNeg f.version) (fun id => id < nd)
+        (fun x r hx => vDimid_put c f nd x r hx hnd) v.dimids _ h.dimids)]
   simp only []
-  rw [bind_ok (vAttrArray_put f v.atts _ h.wf.natts h.natts h.wf.atts)]
+  rw [bind_ok (vAttrArray_put c f v.atts _ h.wf.natts h.natts h.wf.atts)]
   simp only []
-  rw [bind_ok (vType_put f v.xtype _ h.wf.typeOk), bind_ok (vNonNeg_put_raw f v.vsize _ h.vsize),
-      bind_ok (vBegin_put f v.begin r h.wf.begin)]
+  rw [bind_ok (vType_put f v.xtype _ h.wf.typeOk), bind_ok (vVsize_put c f v.vsize _ h.vsize),
+      bind_ok (vBegin_put c f v.begin r h.wf.begin)]
   simp [pure_apply]
 
 /-- headers inside the validator's limits (counts ≤ NC_MAX_INT, one record dimension, dimension ids in range)
@@ -276,8 +352,8 @@ structure VLimits (d : Schema) : Prop where
   vars   : ∀ v ∈ d.vars, v.dimids.length ≤ NC_MAX_VAR_DIMS ∧ (∀ id ∈ v.dimids, id < d.dims.length) ∧
              v.atts.length ≤ NC_MAX_ATTRS ∧ v.vsize < vsizeLim d.fmt
 
-theorem vBody_put (d : Schema) (rest : Bytes) (he : Encodable d) (hl : VLimits d) :
-    vBody d.fmt ((encodeRaw d).drop 4 ++ rest) = .ok ((d, VFlags.ok), rest) := by
+theorem vBody_put (c : VCfg) (d : Schema) (rest : Bytes) (he : Encodable d) (hl : VLimits d) :
+    vBody c d.fmt ((encodeRaw d).drop 4 ++ rest) = .ok ((d, VFlags.ok), rest) := by
   have hdrop : (encodeRaw d).drop 4 = putNonNeg d.fmt.version d.numrecs ++ putDimArray d.fmt.version d.dims ++
       putAttrArray d.fmt.version d.gatts ++ putVarArray d.fmt.version d.vars := by
     unfold encodeRaw
@@ -286,23 +362,23 @@ theorem vBody_put (d : Schema) (rest : Bytes) (he : Encodable d) (hl : VLimits d
   rw [hdrop]
   unfold vBody
   simp only [List.append_assoc]
-  rw [bind_ok (vNonNeg_put d.fmt _ _ he.numrecs)]
+  rw [bind_ok (vNumrecs_put c d.fmt _ _ he.numrecs)]
   have hnd : d.dims.length ≤ 2147483647 := hl.ndims
-  have hd : vDimArray d.fmt.version (putDimArray d.fmt.version d.dims ++
+  have hd : vDimArray c d.fmt.version (putDimArray d.fmt.version d.dims ++
       (putAttrArray d.fmt.version d.gatts ++ (putVarArray d.fmt.version d.vars ++ rest))) =
         .ok ((d.dims, VFlags.ok), putAttrArray d.fmt.version d.gatts ++ (putVarArray d.fmt.version d.vars ++ rest)) := by
     unfold vDimArray putDimArray
-    exact vArray_put d.fmt NC_DIMENSION NC_MAX_DIMS .emaxdims (by simp [NC_DIMENSION]) _ (putDim d.fmt.version) d.dims _
-      he.ndims hl.ndims (fun _ => vDims_put d.fmt d.dims _ false he.dims (by simpa using hl.oneRec))
+    exact vArray_put c d.fmt NC_DIMENSION NC_MAX_DIMS .emaxdims (by simp [NC_DIMENSION]) _ (putDim d.fmt.version) d.dims _
+      he.ndims hl.ndims (fun _ => vDims_put c d.fmt d.dims _ false he.dims (by simpa using hl.oneRec))
   rw [bind_ok hd]
   simp only []
-  rw [bind_ok (vAttrArray_put d.fmt d.gatts _ he.ngatts hl.ngatts he.gatts)]
+  rw [bind_ok (vAttrArray_put c d.fmt d.gatts _ he.ngatts hl.ngatts he.gatts)]
   simp only []
-  have hv : vVarArray d.fmt.version d.dims.length (putVarArray d.fmt.version d.vars ++ rest) = .ok ((d.vars, VFlags.ok), rest) := by
+  have hv : vVarArray c d.fmt.version d.dims.length (putVarArray d.fmt.version d.vars ++ rest) = .ok ((d.vars, VFlags.ok), rest) := by
     unfold vVarArray putVarArray
-    exact vArray_put d.fmt NC_VARIABLE NC_MAX_VARS .emaxvars (by simp [NC_VARIABLE]) _ (putVar d.fmt.version) d.vars rest
-      he.nvars hl.nvars (fun _ => vN_put (vVar d.fmt.version d.dims.length) (putVar d.fmt.version) (VarV d.fmt d.dims.length)
-        (fun v r hv => vVar_put d.fmt d.dims.length hnd v r hv) d.vars rest
+    exact vArray_put c d.fmt NC_VARIABLE NC_MAX_VARS .emaxvars (by simp [NC_VARIABLE]) _ (putVar d.fmt.version) d.vars rest
+      he.nvars hl.nvars (fun _ => vN_put (vVar c d.fmt.version d.dims.length) (putVar d.fmt.version) (VarV d.fmt d.dims.length)
+        (fun v r hv => vVar_put c d.fmt d.dims.length hnd v r hv) d.vars rest
         (fun v hv => ⟨he.vars v hv, (hl.vars v hv).1, (hl.vars v hv).2.1, (hl.vars v hv).2.2.1, (hl.vars v hv).2.2.2⟩))
   rw [bind_ok hv]
   simp [pure_apply]
@@ -440,8 +516,8 @@ theorem vMagic_put (d : Schema) (rest : Bytes) : vMagic (encodeRaw d ++ rest) = 
 
 /-- the validator's header reader returns exactly the header that was written, all padding null, and the
     layout the library's reader derives -/
-theorem vGetNC_put (d : Schema) (rest : Bytes) (info : Info) (he : Encodable d) (hl : VLimits d)
-    (hp : postPass d = .ok info) : vGetNC (encodeRaw d ++ rest) = .ok (d, info, VFlags.ok) := by
+theorem vGetNC_put (c : VCfg) (d : Schema) (rest : Bytes) (info : Info) (he : Encodable d) (hl : VLimits d)
+    (hp : postPass d = .ok info) : vGetNC c (encodeRaw d ++ rest) = .ok (d, info, VFlags.ok) := by
   unfold vGetNC
   rw [vMagic_put]
   simp only []
@@ -449,7 +525,7 @@ theorem vGetNC_put (d : Schema) (rest : Bytes) (info : Info) (he : Encodable d) 
     rw [List.drop_append_of_le_length]
     unfold encodeRaw
     simp [magicBytes]
-  rw [hdrop, vBody_put d rest he hl]
+  rw [hdrop, vBody_put c d rest he hl]
   simp only []
   rw [vPostPass_of d info hl.ndims (fun v hv => (hl.vars v hv).2.1) hp]
 
